@@ -233,6 +233,8 @@ def run(ctx):
     config_object_probe(ctx, root)
     object_default_probe(ctx, root)
     nested_mount_probe(ctx, root)
+    registry_reuse_probe(ctx, root)
+    root_homonym_probe(ctx, root)
 
 
 K2_SRC = '''
@@ -533,6 +535,81 @@ def nested_mount_probe(ctx, root):
         moved = {sl: v for sl, v in locs.items() if len(set(v.values())) > 1}
         if moved:
             ctx.fail('mounting a pipeline under another namespace moved a storage location', case, moved)
+        b.cleanup_module()
+
+
+def registry_reuse_probe(ctx, root):
+    """a parameter registry (or a task's `parameters`) that is given the values of another config after its representation or location was
+    looked at once — `set_values` is public API, tests/test_parameter.py uses registries this way — describes the CURRENT values: it has the
+    representation, and the task the location, of a fresh instance with those values"""
+    from taskchain import Config
+    from taskchain.parameter import Parameter, ParameterRegistry
+    for k in range(ctx.n(10, 80)):
+        rng = ctx.rng('registry-reuse', k)
+        v1 = {'a': gen.gen_value(rng, 0, 2, gen.SAFE, gen.SAFE), 'b': gen.gen_value(rng, 0, 2, gen.SAFE, gen.SAFE)}
+        v2 = {'a': gen.gen_value(rng, 0, 2, gen.SAFE, gen.SAFE), 'b': rng.choice([v1['b'], gen.gen_value(rng, 0, 1, gen.SAFE, gen.SAFE)])}
+        mk = lambda: ParameterRegistry([Parameter('a'), Parameter('b', default=0, dont_persist_default_value=bool(k % 2))])      # noqa
+        looks = [rng.random() < 0.7 for _ in range(3)]
+        case = {'probe': 'registry given values twice', 'first': v1, 'second': v2, 'looked_at_in_between': looks}
+        ctx.case(case); ctx.count('registry-reuse-probe')
+        reg = mk()
+        seq = [v1, v2, v1] if k % 3 == 0 else [v1, v2]
+        for j, vals in enumerate(seq):
+            reg.set_values(Config(root / 'rr', name=f'c{j}', data=dict(vals)))
+            fresh = mk(); fresh.set_values(Config(root / 'rr', name='f', data=dict(vals)))
+            if looks[j] or j == len(seq) - 1:
+                if reg.repr != fresh.repr:
+                    ctx.fail('a parameter registry given new values keeps describing earlier ones: equal persisted values, different representation',
+                             case, {'step': j, 'reused': reg.repr, 'fresh': fresh.repr})
+                    break
+    # the same on a task of a chain: location after `task.parameters.set_values(other config)`
+    spec = {'classes': {'K0': {'name': 'o', 'group': '', 'params': [{'name': 'a'}, {'name': 'b', 'default': 0}], 'inputs': [], 'kind': 'json', 'run_args': []}},
+            'files': {}, 'main': None}
+    b = pl.materialize(spec, root / 'rrt', modname=gen.fresh_modname())
+    cls = getattr(b.module(), pl.pyname('K0'))
+    for k in range(ctx.n(6, 40)):
+        rng = ctx.rng('task-reuse', k)
+        v1 = {'a': gen.gen_value(rng, 0, 2, gen.SAFE, gen.SAFE), 'b': 1}
+        v2 = {'a': gen.gen_value(rng, 0, 2, gen.SAFE, gen.SAFE), 'b': 2}
+        case = {'probe': 'task given values twice', 'first': v1, 'second': v2}
+        ctx.case(case); ctx.count('registry-reuse-probe:task')
+        t = Config(root / 'rrd', name='c1', data={'tasks': [cls], **v1}).chain().tasks['o']
+        if k % 4 != 3:
+            _ = t.data_path
+        t.parameters.set_values(Config(root / 'rrd', name='c2', data=dict(v2)))
+        ref = Config(root / 'rrd', name='c2', data={'tasks': [cls], **v2}).chain().tasks['o']
+        if t.params.repr != ref.params.repr:
+            ctx.fail('a task given new parameter values keeps the representation of the earlier ones', case, {'reused': t.params.repr, 'fresh': ref.params.repr})
+    b.cleanup_module()
+
+
+def root_homonym_probe(ctx, root):
+    """the location of a mounted pipeline's task does not depend on what ELSE the chain holds: an optional by-name input the pipeline does not
+    provide stays absent (default) — and the key unchanged — when the root of the chain, or a sibling namespace, has a task of that name"""
+    for k in range(ctx.n(6, 40)):
+        rng = ctx.rng('root-homonym', k)
+        ns = rng.choice(['n', 'm::k'])
+        spec = {'classes': {'K0': {'name': 'ext', 'group': '', 'params': [{'name': 'e', 'default': 1}], 'inputs': [], 'kind': 'json', 'run_args': []},
+                            'K1': {'name': 'down', 'group': '', 'params': [{'name': 'y', 'default': 1}], 'inputs': [{'by': 'name', 'ref': 'ext', 'default': 5}],
+                                   'kind': 'json', 'run_args': ['y'], 'pull': ['ext'], 'in_kinds': {'ext': 'json'}}},
+                'files': {'p.json': {'tasks': ['K1']}, 'e.json': {'tasks': ['K0']},
+                          'main_alone.json': {'uses': [f'@cfg/p.json as {ns}']},
+                          'main_root.json': {'uses': [f'@cfg/p.json as {ns}'], 'tasks': ['K0']},
+                          'main_sibling.json': {'uses': [f'@cfg/p.json as {ns}', '@cfg/e.json as other']}},
+                'main': 'main_alone.json', 'module': gen.fresh_modname()}
+        b = pl.materialize(spec, root / f'rh{k}', modname=spec['module'])
+        b.module()
+        case = {'probe': 'task of the same name at the root / in a sibling namespace', 'namespace': ns}
+        ctx.case(case); ctx.count('root-homonym-probe')
+        locs = {}
+        for main in ('main_alone.json', 'main_root.json', 'main_sibling.json'):
+            chain, err = pl.build(b, root / f'rh{k}' / 'data', main=main)
+            if err:
+                ctx.fail('a chain with a task named like an absent optional input of a mounted pipeline cannot be built', case, {'main': main, 'error': err}); break
+            t = chain.tasks[f'{ns}::down']
+            locs[main] = (os.path.relpath(str(t.data_path), str(root / f'rh{k}' / 'data')), sorted(k_ for k_, v in t.input_tasks.items() if hasattr(v, 'fullname')))
+        if len({v[0] for v in locs.values()}) > 1 or any(v[1] for v in locs.values()):
+            ctx.fail('a task of the same name elsewhere in the chain changed the inputs or the location of a mounted task', case, locs)
         b.cleanup_module()
 
 
